@@ -451,6 +451,8 @@ type Contract struct {
 	Hints      []*Clause   // trigger facts assumed at entry
 	PostHints  []*Clause   // trigger facts assumed at each return
 	Replay     map[string]string
+	AbsIdx    bool // quantify over absolute indices (change of variable) in this function's verification
+	AtCall    map[string][]*Clause // conditions that must hold whenever this function calls the named callee
 	GhostSets [][2]string // ghost assignments executed at every return: target ghost application, value expression
 }
 
@@ -491,7 +493,7 @@ func NewSpecs() *Specs {
 	return &Specs{Contracts: map[string]*Contract{}, Funs: map[string]*SpecFun{}, Ghosts: map[string]*GhostFun{}}
 }
 
-var keywordRe = regexp.MustCompile(`^(func|iface|functype|spec|ufun|hfun|haxiom|hlemma|axiom|lemma|ghost|property|trusted|pure|implements|requires|ensures|modifies|loop|invariant|decreases|end|may_panic|nosafety|assume|alloc|hint|posthint|replay|check|split|ghostset)\b`)
+var keywordRe = regexp.MustCompile(`^(func|iface|functype|spec|ufun|hfun|haxiom|hlemma|axiom|lemma|ghost|property|trusted|pure|implements|requires|ensures|modifies|loop|invariant|decreases|end|may_panic|nosafety|assume|alloc|hint|posthint|replay|check|split|ghostset|atcall|absidx)\b`)
 var labelRe = regexp.MustCompile(`^([A-Za-z_][A-Za-z0-9_.]*)\s*:([^:]|$)`)
 var propTagRe = regexp.MustCompile(`^\[([A-Za-z0-9 ,]+)\]\s*`)
 var headRe = regexp.MustCompile(`^(\S.*?)\(([^)]*)\)\s*(?:\(([^)]*)\))?\s*$`)
@@ -630,6 +632,8 @@ func (sp *Specs) ParseSpecFile(path string, pkg string) error {
 				return fmt.Errorf("%s:%d: property outside contract", path, l.n)
 			}
 			cur.Props = append(cur.Props, strings.Fields(rest)...)
+		case "absidx":
+			cur.AbsIdx = true
 		case "trusted":
 			cur.Trusted = true
 		case "pure":
@@ -698,6 +702,21 @@ func (sp *Specs) ParseSpecFile(path string, pkg string) error {
 			} else {
 				cur.PostHints = append(cur.PostHints, c)
 			}
+		case "atcall":
+			// atcall Callee: [props] label: expr     (checked in the state right before every call to Callee)
+			k := strings.Index(rest, ":")
+			callee := strings.TrimSpace(rest[:k])
+			c, err := mkClause(l, strings.TrimSpace(rest[k+1:]))
+			if err != nil {
+				return err
+			}
+			if cur.AtCall == nil {
+				cur.AtCall = map[string][]*Clause{}
+			}
+			if c.Label == "" {
+				c.Label = fmt.Sprintf("at%d", len(cur.AtCall[callee]))
+			}
+			cur.AtCall[callee] = append(cur.AtCall[callee], c)
 		case "ghostset":
 			// ghostset g(x) = expr      (ghost state only; executed at every return, before the postconditions)
 			k := strings.Index(rest, " = ")
